@@ -31,12 +31,12 @@ def run(R, job):
     def rs():
         return "".join(r.choice(META + ctx.texts) for _ in range(r.choice([1, 1, 2, 3])))
 
-    def check(how, t, want):
+    def check(how, t, want, name="div"):
         nonlocal checked
         checked += 1
         out = t.get_html_string()
         first = out.split(">", 1)[0] if False else out
-        exp = "<div" + "".join(f' {k}="{v}"' for k, v in want) + "></div>"
+        exp = "<" + name + "".join(f' {k}="{v}"' for k, v in want) + ("/>" if name in ocommon.VOID else "></" + name + ">")
         if out != exp:
             fails.append({"input": f"{how}: {ctx.describe(t)}", "observed": out, "expected": exp})
             return
@@ -50,6 +50,9 @@ def run(R, job):
         h = r.choice(["<b>", "x&y", "&amp;", "z"])
         distinct.add((a, b, h))
         check("keyword", core.Tag("div", title=a), [("title", esca(a))])
+        # the same for every kind of element: raw-text elements, void elements, inline elements, custom names
+        nm = r.choice(["script", "style", "span", "input", "img", "textarea", "title", "pre", "x-custom", "a", "meta", "link", "option"])
+        check(f"keyword + HTML on <{nm}>", core.Tag(nm, title=a, class_=HTML(h), _add_ws=r.random() < 0.5), [("title", esca(a)), ("class", h)], name=nm)
         check("dict", core.Tag("div", {"title": a}), [("title", esca(a))])
         check("two values", core.Tag("div", {"class": a}, class_=b), [("class", esca(a) + " " + esca(b))])
         check("plain+HTML", core.Tag("div", {"class": a}, class_=HTML(h)), [("class", esca(a) + " " + h)])
